@@ -96,10 +96,13 @@ def admissible(unit, value, descr, pads, section):
 
 
 def run_lines(lines_iter):
-    """lines_iter yields (line, section, expected dict). Returns violations, counts."""
+    """lines_iter yields (line, section, expected dict). Returns violations, counts.
+    The line parsed just before is kept in the witness: read_header_line must be a pure function of
+    its arguments, and a violation that needs a particular predecessor is replayed with it."""
     vio = []
     n = 0
     nontriv = 0
+    prev = None
     for line, section, exp in lines_iter:
         n += 1
         if exp["unit"] or exp["value"] or exp["descr"]:
@@ -112,10 +115,12 @@ def run_lines(lines_iter):
             wrong = [k for k in ("name", "unit", "value", "descr") if got.get(k) != exp[k]] if "raise" not in got else ["raise"]
             vio.append({
                 "clause": "fields-differ", "sig": "%s|sec=%s" % ("+".join(wrong), section if section in SECTIONS[:4] else ("custom" if section else "none")),
-                "witness": {"line": line, "section": section, "expected": exp}, "expected": exp, "observed": got,
+                "witness": {"line": line, "section": section, "expected": exp, "prev": prev}, "expected": exp, "observed": got,
                 "size": len(line),
-                "repro": "from lasio.reader import read_header_line; print(read_header_line(%r, section_name=%r))" % (line, section),
+                "repro": "from lasio.reader import read_header_line; %sprint(read_header_line(%r, section_name=%r))"
+                         % (("read_header_line(%r, section_name=%r); " % tuple(prev)) if prev else "", line, section),
             })
+        prev = [line, section]
     return vio, n, nontriv
 
 
@@ -169,6 +174,8 @@ def gen_noperiod():
             for p in itertools.product(("", " ", "   ", "\t"), repeat=4):
                 line = "%s%s%s:%s%s%s" % (p[0], name, p[1], p[2], value, p[3])
                 for section in SECTIONS:
+                    # a full line first: the period-less form has no unit/description field and must not inherit any
+                    yield "ELEV .FT 1234.5 : ground elevation", section, {"name": "ELEV", "unit": "FT", "value": "1234.5", "descr": "ground elevation"}
                     yield line, section, {"name": name, "unit": "", "value": value, "descr": ""}
 
 
@@ -270,6 +277,14 @@ def _numeq(v, text):
 
 def replay(witness):
     if "line" in witness and "expected" in witness:
+        seq = []
+        if witness.get("prev"):
+            pl, ps = witness["prev"]
+            try:
+                seq.append((pl, ps, reader.read_header_line(pl, section_name=ps)))  # predecessor: executed, its own result is not judged
+            except Exception:
+                pass
+            reader_prev_done = True
         vio, _, _ = run_lines([(witness["line"], witness["section"], witness["expected"])])
         return vio
     return via_read(witness["si"])[0]
